@@ -338,6 +338,10 @@ fn run_mut_job(job: &Value) {
             emit_end(&json!({"name": name, "kind": "mut", "stage": "harness-skip"}));
             continue;
         }
+        if let Some(path) = job.get("dump").and_then(|x| x.as_str()) {
+            let _ = std::fs::write(path, serde_json::to_string(&program_witness(&q, &[Solver::Linear], false, q.statements.len())).unwrap());
+            return;
+        }
         let mut e = run_program_item(&name, "mut", &q, nonlinear, &mut seen, if thorough { 40.0 } else { 12.0 });
         e["mclass"] = json!(if chain.is_empty() {
             "base".to_string()
